@@ -39,7 +39,7 @@ def run(rep, tier, seed):
         for name, a in (("base", ["--init=Init", "--length=0"]), ("step", ["--init=IndInit", "--length=1"])):
             try:
                 pr = subprocess.run(["apalache-mc", "check", "--cinit=ConstInit", "--inv=IndInv", "--out-dir=" + os.path.join(wd, "out_" + name)] + a + ["BudgetInd.tla"],
-                                    cwd=wd, capture_output=True, text=True, timeout=900)
+                                    cwd=wd, capture_output=True, text=True, timeout=900, env=dict(os.environ, TMPDIR=wd))
             except subprocess.TimeoutExpired:
                 raise MachineryError("apalache timed out on BudgetInd (%s)" % name)
             if "EXITCODE: OK" not in pr.stdout or "NoError" not in pr.stdout and "no error" not in pr.stdout:
